@@ -280,6 +280,26 @@ class Analysis:
                 deps.append(self.resolve(r["a"]))
         return deps
 
+    def shape_flags(self):
+        """Program-shape predicates used to tell violation classes / known findings apart."""
+        f = {"has_condition": bool(self.conds), "cond_in_conditionally_called_method": False,
+             "cond_branch_reaches_validate": False, "cond_two_blocks_in_one_body": False}
+        encls = [e for (_, e) in self.conds.values()]
+        f["cond_two_blocks_in_one_body"] = len(encls) != len(set(encls))
+        for cid, (n, encl) in self.conds.items():
+            top = encl
+            while top in self.branches:
+                top = self.branches[top][2]
+            if top in self.mdefs:
+                for s in self.sites.values():
+                    if s.target == top and (s.node.get("en") or len(s.pos) > len(self.bodies[s.body].pos) + 1):
+                        f["cond_in_conditionally_called_method"] = True
+            for br in n["branches"]:
+                for ch in self.chains[br["bid"]]:
+                    if self.mdefs[ch[-1].target].get("val"):
+                        f["cond_branch_reaches_validate"] = True
+        return f
+
     def rr_safe(self):
         """No ready dependency between transactions of one conflict component (the premise of C09; the
         round-robin arbiter's grant depends combinationally on all requests of its component)."""
